@@ -560,9 +560,13 @@ class TS:
                         cenv[fr.callblk] = ("RES", "Ok" if kind == "OK" else "Err")
                     elif fn.returns_result() and fn.q not in self.sm.may_fail():
                         cenv[fr.callblk] = ("RES", "Ok")  # tail call / moved result of an infallible function
+                    # a tail call (`return f(x)`): the caller's exit kind is the callee's
+                    caller = frames[-2].fn
+                    cdest = caller.blocks[fr.callblk]["t"][3]
+                    if cdest[0] == 0 and not cdest[1] and cenv.get("ek") == "CALL" and cenv.get(fr.callblk, (None,))[0] == "RES":
+                        cenv["ek"] = "OK" if cenv[fr.callblk][1] == "Ok" else "ERR_PROP"
                     # the same fact keyed by the destination local (a `match` whose arms assign one
                     # local from different calls makes that local multi-def)
-                    caller = frames[-2].fn
                     dl = caller.blocks[fr.callblk]["t"][3]
                     if not dl[1] and len(caller.defs().get(dl[0], ())) > 1:
                         if fr.callblk in cenv and cenv[fr.callblk][0] == "RES":
@@ -883,6 +887,9 @@ class TS:
         if targets and all(tq in self.m.fns and self.m.fns[tq].returns_result() and tq not in self.sm.may_fail() for tq in targets):
             env2 = dict(env2)
             env2[b] = ("RES", "Ok")
+        if call.dest[0] == 0 and not call.dest[1] and env2.get("ek") == "CALL" and env2.get(b, (None,))[0] == "RES":
+            env2 = dict(env2)
+            env2["ek"] = "OK" if env2[b][1] == "Ok" else "ERR_PROP"
         if not call.dest[1] and len(fn.defs().get(call.dest[0], ())) > 1:
             if env2.get(b, (None,))[0] == "RES":
                 env2 = dict(env2)
@@ -897,6 +904,11 @@ class TS:
                 env2 = dict(env2)
                 env2[b] = ("RES", "Ok")
                 self.stats.setdefault("H_used", set()).add((fn.q, b))
+        elif q == Q_EXEC and args and s2 == "Running" and any(f.fn.q == Q_EXEC for f in frames):
+            # a recursive exec of the tracked task itself (resume): H applies to it as well
+            env2 = dict(env2)
+            env2[b] = ("RES", "Ok")
+            self.stats.setdefault("H_used", set()).add((fn.q, b))
         # ---- emit_task_event runs the on_task handler synchronously --------------------------------
         if q == Q_EMIT_EVENT and ev is not None and ev[0] == "EMIT_EVENT" and depth < self.maxdepth + 3:
             # the handler may nest (a hook that revives the task and reviews it emits again): two levels
